@@ -4,6 +4,8 @@ Property C07 — what annotate writes, the linter reads back.
 import ReuseVerif.Lemmas.HeaderParts
 import ReuseVerif.Lemmas.StyleTable
 import ReuseVerif.Lemmas.C07Achievable
+import ReuseVerif.Lemmas.C07Scan
+import ReuseVerif.Lemmas.C07Closed
 import ReuseVerif.Theorems.C02
 
 namespace C07
@@ -125,6 +127,66 @@ theorem C07_file_partial (c : HdrCfg) (replace skip : Bool) (info : Extracted) (
   rw [ht'] at hns htg ⊢
   exact ⟨declares_of_embed hpre hns htg hd.1, fun ho => declares_of_embed hpre hns htg (hd.2 ho)⟩
 
+/-- Table obligation: each of the two tags contains a character the generated END expression can
+    never consume — so END's `\\s*` can run on across line breaks, but never across a tag line. -/
+theorem C07_tags_unusable :
+    tagUnusable Generated.endRe Generated.licenseTag = true ∧
+    tagUnusable Generated.endRe Generated.contributorTag = true := by decide +kernel
+
+/-- **`tagsCompose` from a condition on the header block alone.**  If every line of the block is
+    *closed* for both tags (`tagLinesClosed`, decidable: a line holding `TAG[ \t]` yields, read on
+    its own, a non-empty tail-safe value — END matches the rest of the line and no tail of the
+    value can begin a run of terminators continuing on the next lines), then every tag value of
+    the block is a tag value of any text holding the block between line boundaries, provided no
+    ignore region opens in that text.  (The block ending `…MIT"` followed by `\n>` is not closed.) -/
+theorem C07_tags_compose (pre hdr post : Text) (hpre : pre = [] ∨ ∃ p, pre = p ++ ['\n'])
+    (hns : noIgnoreStart (pre ++ hdr ++ ['\n'] ++ post) = true)
+    (hcl : tagLinesClosed Generated.endRe hdr = true) :
+    tagsCompose hdr (pre ++ hdr ++ ['\n'] ++ post) = true := by
+  unfold noIgnoreStart at hns
+  simp only [Option.isNone_iff_eq_none] at hns
+  have hh : findSub Generated.ignoreStart hdr = none :=
+    findSub_none_infix (a := pre) (c := ['\n'] ++ post) (by simpa [List.append_assoc] using hns)
+  unfold tagLinesClosed at hcl
+  simp only [Bool.and_eq_true] at hcl
+  have e : pre ++ hdr ++ ['\n'] ++ post = pre ++ hdr ++ '\n' :: post := by simp
+  unfold tagsCompose extractRaw extractRawWith
+  simp only [filterIgnore_id hns, filterIgnore_id hh, Bool.and_eq_true, List.all_eq_true, List.contains_eq_mem,
+    decide_eq_true_eq, mem_dedup]
+  rw [e]
+  exact ⟨fun v hv => C07A.findTag_embed Generated.endRe _ (by decide) C07_tags_unusable.1 pre hdr post hpre hcl.1 v hv,
+    fun v hv => C07A.findTag_embed Generated.endRe _ (by decide) C07_tags_unusable.2 pre hdr post hpre hcl.2 v hv⟩
+
+/-- **The file (C07_file).**  `C07_file_partial` with its per-case hypothesis `tagsCompose`
+    (header block *and* whole text) replaced by a condition on the header block alone that is
+    proved to suffice: every line of the new header block is closed for both tags
+    (`tagLinesClosed`).  Then, for a file with "\n" line endings in which no ignore region opens,
+    extraction of the **whole written text** yields everything requested and everything the
+    replaced header declared — whatever stands above and below the header (any file content: the
+    scan of `findall` reaches every tag line of the block, `C07A.scan_reaches`).
+    Still not in the statement: lint's 4096-byte window (known finding c07-header-beyond-window). -/
+theorem C07_file (c : HdrCfg) (replace skip : Bool) (info : Extracted) (text t : Text)
+    (hmerge : c.merge = false) (hnorm : ∀ x, c.normLic (c.normLic x) = c.normLic x)
+    (hle : detectLineEnding text = ['\n'])
+    (h : annotateText c replace skip info text = .written t)
+    (hns : noIgnoreStart t = true)
+    (hclosed : ∀ p, headerParts c replace info (Py.replace text ['\n'] ['\n']) = .ok p →
+      tagLinesClosed Generated.endRe p.1 = true) :
+    Declares c.normLic (extractRaw t) info.cpr info.lic ∧
+    (let old := oldHeader c replace (Py.replace text ['\n'] ['\n'])
+     old ≠ [] → Declares c.normLic (extractRaw t) (extractRaw old).cpr (extractRaw old).lic) := by
+  apply C07_file_partial c replace skip info text t hmerge hnorm hle h hns
+  intro p hp
+  obtain ⟨p', hp', ht⟩ := annotateText_parts h
+  rw [hle] at hp' ht
+  have hpp : p' = p := by rw [hp] at hp'; cases hp'; rfl
+  subst hpp
+  obtain ⟨pre, post, hshape, hpre⟩ := placeHeader_shape p'.1 p'.2.1 p'.2.2.1 p'.2.2.2
+  have ht' : t = pre ++ p'.1 ++ ['\n'] ++ post := by
+    rw [ht, hshape]; unfold retranslate; simp
+  rw [ht'] at hns ⊢
+  exact C07_tags_compose pre p'.1 post hpre hns (hclosed p' hp)
+
 -- the hypotheses are satisfiable (the driver evaluates them on every case of the `filetie` stream)
 example : noIgnoreStart "# SPDX-License-Identifier: MIT\n".toList = true := by decide
 
@@ -147,31 +209,37 @@ theorem C07_styles_readable :
       | some m => styleReadable s m
       | none => true) = true := by decide +kernel
 
-/-- **The default template is achievable — general form.**  For *any* style `c.style` and line
-    mode `m` it supports with `styleReadable` (a decidable condition on the markers), the bundled
-    default template and every request covered by `wfRequest` (see `Spec/Achievable.lean`):
-    `_create_new_header` returns a header (the guard accepts), and the tool's own extraction of
-    that header yields exactly the requested licence expressions, copyright lines and
-    contributors (as duplicate-free lists in sorted order). -/
-theorem C07_default_achievable_style (c : HdrCfg) (info : Extracted) (m : LineMode)
-    (hr : c.render = defaultRender) (hc : c.commented = false)
-    (hm : lineMode c.style c.forceMulti = some m)
-    (hstyle : styleReadable c.style m = true)
-    (hreq : wfRequest Generated.endRe c.style m info = true) :
-    ∃ h, createNewHeader c info = .ok h ∧
-      extractRaw h = ⟨dedup (sortTexts info.lic), dedup (sortTexts info.cpr), dedup (sortTexts info.con)⟩ := by
-  have sf := C07A.styleFacts hstyle
-  have rq := C07A.reqOK_of_wfRequest hreq
+/-- the generated END expression is a starred expression: it matches the empty text, is nullable,
+    and none of its alternatives begins with a line feed -/
+theorem C07_end_facts :
+    Re.Matches Generated.endRe [] ∧ canStart Generated.endRe '\n' = false ∧ nullable Generated.endRe = true := by
   have hwb := C07_end_well_behaved
   unfold endWellBehaved at hwb
   simp only [Bool.and_eq_true, Bool.not_eq_true'] at hwb
   obtain ⟨body, hbody⟩ := Option.isSome_iff_exists.mp hwb.1
   have hstar := starBody_eq hbody
-  have hnil : Re.Matches Generated.endRe [] := by rw [hstar]; exact .starNil
-  have hnull : nullable Generated.endRe = true := by rw [hstar]; rfl
+  exact ⟨by rw [hstar]; exact .starNil, hwb.2, by rw [hstar]; rfl⟩
+
+/-- **What is written for the default template**: the header `_create_new_header` returns is —
+    line by line — the opening line of the comment (multi-line mode), the sorted copyright lines,
+    the contributor lines, an empty line, the licence lines, each behind the style's line prefix
+    (`C07A.headerLines` of `C07A.bodyLines`), and the closing line; the guard accepts it. -/
+theorem C07_default_header (c : HdrCfg) (info : Extracted) (m : LineMode)
+    (hr : c.render = defaultRender) (hc : c.commented = false)
+    (hm : lineMode c.style c.forceMulti = some m)
+    (hstyle : styleReadable c.style m = true)
+    (hreq : wfRequest Generated.endRe c.style m info = true) :
+    createNewHeader c info = .ok (join ['\n'] (C07A.headerLines c.style m
+      (C07A.bodyLines (sortTexts info.cpr) (sortTexts info.con) (sortTexts info.lic)))) ∧
+    extractRaw (join ['\n'] (C07A.headerLines c.style m
+      (C07A.bodyLines (sortTexts info.cpr) (sortTexts info.con) (sortTexts info.lic)))) =
+      ⟨dedup (sortTexts info.lic), dedup (sortTexts info.cpr), dedup (sortTexts info.con)⟩ := by
+  have sf := C07A.styleFacts hstyle
+  have rq := C07A.reqOK_of_wfRequest hreq
+  obtain ⟨hnil, hcs, hnull⟩ := C07_end_facts
   have hrend := C07A.renderedHeader_default c info m hr hc hm sf rq
-  have hext := C07A.extract_header Generated.endRe hnil hwb.2 hnull sf rq
-  refine ⟨_, ?_, hext⟩
+  have hext := C07A.extract_header Generated.endRe hnil hcs hnull sf rq
+  refine ⟨?_, hext⟩
   rw [createNewHeader_eq, hrend]
   have hg : guardOk c info (join ['\n'] (C07A.headerLines c.style m
       (C07A.bodyLines (sortTexts info.cpr) (sortTexts info.con) (sortTexts info.lic)))) = true := by
@@ -184,6 +252,21 @@ theorem C07_default_achievable_style (c : HdrCfg) (info : Extracted) (m : LineMo
     · rw [mem_dedup, C07A.mem_sortTexts]
     · simp only [List.mem_map, mem_dedup, C07A.mem_sortTexts]
   simp [hg]
+
+/-- **The default template is achievable — general form.**  For *any* style `c.style` and line
+    mode `m` it supports with `styleReadable` (a decidable condition on the markers), the bundled
+    default template and every request covered by `wfRequest` (see `Spec/Achievable.lean`):
+    `_create_new_header` returns a header (the guard accepts), and the tool's own extraction of
+    that header yields exactly the requested licence expressions, copyright lines and
+    contributors (as duplicate-free lists in sorted order). -/
+theorem C07_default_achievable_style (c : HdrCfg) (info : Extracted) (m : LineMode)
+    (hr : c.render = defaultRender) (hc : c.commented = false)
+    (hm : lineMode c.style c.forceMulti = some m)
+    (hstyle : styleReadable c.style m = true)
+    (hreq : wfRequest Generated.endRe c.style m info = true) :
+    ∃ h, createNewHeader c info = .ok h ∧
+      extractRaw h = ⟨dedup (sortTexts info.lic), dedup (sortTexts info.cpr), dedup (sortTexts info.con)⟩ :=
+  ⟨_, (C07_default_header c info m hr hc hm hstyle hreq).1, (C07_default_header c info m hr hc hm hstyle hreq).2⟩
 
 /-- **C07_default_achievable.**  For the bundled default template, every style of the generated
     style table and every line mode the style supports (single-line, multi-line incl. forced; the
@@ -233,6 +316,70 @@ theorem C07_notice_built (x : Text × CPat × Text) (hx : x ∈ prefixShapes) (y
   unfold isStripped at hs
   simp only [beq_iff_eq] at hs
   simp [hs]
+
+/-- the style condition from the table -/
+theorem C07_style_of_table (s : Generated.Style) (hs : s ∈ Generated.styles) (fm : Bool) (m : LineMode)
+    (hm : lineMode s fm = some m) : styleReadable s m = true := by
+  have htab := C07_styles_readable
+  rw [List.all_eq_true] at htab
+  have h1 := htab s hs
+  rw [List.all_eq_true] at h1
+  have h2 := h1 fm (by cases fm <;> simp)
+  rw [hm] at h2
+  exact h2
+
+/-- **The file, default template (no hypothesis on the header block left).**  `reuse annotate`
+    with the bundled template on a file that has no header yet (or `--no-replace`), any style of the
+    table in any line mode it supports, a request covered by `wfRequest`, "\n" line endings: when the
+    text-level `add_header_to_file` writes `t` and no ignore region opens in `t`, then extraction of
+    the **whole written text** — whatever the file held — yields every requested copyright line,
+    every requested licence expression (verbatim, not only up to normalisation) and every
+    requested contributor.  (`tagLinesClosed` of `C07_file` is *proved* for this header:
+    `C07A.default_header_closed`.)  Not in the statement: lint's 4096-byte window. -/
+theorem C07_file_default (c : HdrCfg) (replace skip : Bool) (info : Extracted) (text t : Text) (m : LineMode)
+    (hs : c.style ∈ Generated.styles) (hr : c.render = defaultRender) (hc : c.commented = false)
+    (hm : lineMode c.style c.forceMulti = some m) (hmerge : c.merge = false)
+    (hreq : wfRequest Generated.endRe c.style m info = true)
+    (hle : detectLineEnding text = ['\n'])
+    (hold : oldHeader c replace (Py.replace text ['\n'] ['\n']) = [])
+    (h : annotateText c replace skip info text = .written t)
+    (hns : noIgnoreStart t = true) :
+    (∀ x ∈ info.cpr, x ∈ (extractRaw t).cpr) ∧ (∀ x ∈ info.lic, x ∈ (extractRaw t).lic) ∧
+    (∀ x ∈ info.con, x ∈ (extractRaw t).con) := by
+  have hstyle := C07_style_of_table c.style hs c.forceMulti m hm
+  obtain ⟨hnew, hext⟩ := C07_default_header c info m hr hc hm hstyle hreq
+  obtain ⟨p, hp, ht⟩ := annotateText_parts h
+  rw [hle] at hp ht
+  have hcreated := headerParts_created hp
+  rw [hold] at hcreated
+  have hp1 : p.1 = join ['\n'] (C07A.headerLines c.style m
+      (C07A.bodyLines (sortTexts info.cpr) (sortTexts info.con) (sortTexts info.lic))) := by
+    unfold createHeader at hcreated
+    simp only [List.isEmpty_nil, if_true, hmerge, Bool.false_eq_true, if_false] at hcreated
+    rw [hnew] at hcreated
+    exact (Except.ok.inj hcreated).symm
+  obtain ⟨pre, post, hshape, hpre⟩ := placeHeader_shape p.1 p.2.1 p.2.2.1 p.2.2.2
+  have ht' : t = pre ++ p.1 ++ ['\n'] ++ post := by
+    rw [ht, hshape]; unfold retranslate; simp
+  have sf := C07A.styleFacts hstyle
+  have rq := C07A.reqOK_of_wfRequest hreq
+  have hclosed : tagLinesClosed Generated.endRe p.1 = true := by
+    rw [hp1]; exact C07A.default_header_closed Generated.endRe C07_end_facts.1 sf rq
+  rw [ht'] at hns ⊢
+  have hcomp := C07_tags_compose pre p.1 post hpre hns hclosed
+  unfold tagsCompose at hcomp
+  simp only [Bool.and_eq_true, List.all_eq_true, List.contains_eq_mem, decide_eq_true_eq] at hcomp
+  have hns' := hns
+  unfold noIgnoreStart at hns'
+  simp only [Option.isNone_iff_eq_none] at hns'
+  rw [← hp1] at hext
+  refine ⟨fun x hx => ?_, fun x hx => ?_, fun x hx => ?_⟩
+  · apply extractRaw_cpr_embed pre p.1 post hpre hns' x
+    rw [hext]; simp only [mem_dedup, C07A.mem_sortTexts]; exact hx
+  · apply hcomp.1
+    rw [hext]; simp only [mem_dedup, C07A.mem_sortTexts]; exact hx
+  · apply hcomp.2
+    rw [hext]; simp only [mem_dedup, C07A.mem_sortTexts]; exact hx
 
 /-- a concrete notice with an e-mail address (its holder ends in `>`, a character END can consume,
     but no tail of it can begin a run of terminators) -/
